@@ -95,12 +95,22 @@ class _Logged(list):
         self._it.timeline.append(("ext", rec[0], rec))
 
 
+_BOOL_OPS = {"tensor_equal", "tensor_allclose", "any", "all", "lnot", "isinstance", "land", "lor", "is_", "contains"}
+
+
 def _cond_key(term):
     """Canonical key of a boolean term and whether the term is the key's negation: x != y is not(x == y),
     x <= y is not(x > y), x < y is y > x, x >= y is not(y > x)."""
     at = term.single_atom() if hasattr(term, "single_atom") else None
     if at is not None and isinstance(at, T.App) and len(at.args) == 2:
         a, b = at.args
+        if at.op in ("cmp_Eq", "cmp_NotEq") and (a == T.ZERO or b == T.ZERO):
+            # truthiness of a symbolic *boolean* x: (x != 0) is x itself, (x == 0) its negation
+            x = b if a == T.ZERO else a
+            xa = x.single_atom() if hasattr(x, "single_atom") else None
+            if isinstance(xa, T.App) and (xa.op.startswith("cmp_") or xa.op in _BOOL_OPS):
+                k2, f2 = _cond_key(x) if xa.op.startswith("cmp_") else (("t", x), False)
+                return k2, f2 != (at.op == "cmp_Eq")
         if at.op in ("cmp_Eq", "cmp_NotEq"):
             a, b = sorted((a, b), key=repr)
             return ("eq", a, b), at.op == "cmp_NotEq"
@@ -217,12 +227,15 @@ class Interp:
         if known is not None:
             return bool(known)
         skey = None
-        if self.sticky:
-            skey = (self.site(node), desc or (ast.unparse(node) if node is not None else "?"))
-            if skey in self.sticky_memo:
-                return self.sticky_memo[skey]
         if isinstance(value, VNum) and value.kind != "bool" and value.term is not None:
             value = VNum("bool", T.app("cmp_NotEq", value.term, T.ZERO))  # truthiness of a number
+        if self.sticky:
+            skey = (self.site(node), desc or (ast.unparse(node) if node is not None else "?"))
+            if self.sticky == "term" and isinstance(value, VNum) and value.term is not None:
+                # finer partition: the same branch site asked about a *different value* (another matrix, another row) is another decision
+                skey = skey + (_cond_key(value.term)[0],)
+            if skey in self.sticky_memo:
+                return self.sticky_memo[skey]
         # a condition whose value is a term already decided on this path has the same outcome (terms are pure
         # values); generic unknowns ('?') are not identities and are never memoised
         tkey = None
@@ -955,7 +968,10 @@ class Interp:
             items = self.concrete_items(it)
             if items is None or len(items) > 64:
                 # abstract: one generic element
-                self._last_comp_iter = _count_term(it)
+                ci = _count_term(it)
+                if isinstance(it, VList) and it.obj.items is None and getattr(it.obj, "comp_iter", None) is not None:
+                    ci = it.obj.comp_iter  # a map over a comprehension-built list runs over what that comprehension ran over
+                self._last_comp_iter = ci
                 self.assign(g.target, self.loop_elem(it, False, node), node)
                 for c in g.ifs:
                     self.eval(c)
@@ -1083,6 +1099,10 @@ class Interp:
             return self.ops.call_ext(self, f.name, args, kwargs, node)
         if isinstance(f, VBound):
             return self.ops.call_bound(self, f.recv, f.name, args, kwargs, node)
+        if isinstance(f, VPartial):
+            kw = dict(f.kwargs)
+            kw.update(kwargs)
+            return self.call_value(f.func, list(f.args) + list(args), kw, node)
         if isinstance(f, VObj):
             if f.inst.cls is not None and f.inst.cls.find_method("__call__"):
                 return self.call_method(f, "__call__", args, kwargs, node)
@@ -1453,7 +1473,7 @@ class Interp:
                         return
                     raise RaiseEx("AttributeError", self.site(node), "can't set attribute %s" % attr, True)
             # nn.Parameter registration order
-            if isinstance(v, VTens) and v.obj.is_parameter:
+            if isinstance(v, VTens) and v.obj.is_parameter and not v.view:
                 order = inst.attrs.setdefault("__param_order__", [])
                 if attr not in order:
                     order.append(attr)
@@ -1468,6 +1488,10 @@ class Interp:
                 base.obj.grad = v
                 return
             if attr == "data":
+                if not base.view and isinstance(v, VTens):
+                    # p.data = t: the tensor object p now uses t's storage; views taken of p earlier keep the old one
+                    self.rebind_storage(base, v.term, node, "set .data", shape=v.shape, alias=v.obj)
+                    return
                 self.write(base, v.term if isinstance(v, VTens) else None, node, "set .data")
                 if isinstance(v, VTens) and v.obj is not base.obj:
                     base.obj.may_alias.add(v.obj)  # p.data = t: p now uses t's storage
@@ -1482,6 +1506,24 @@ class Interp:
         raise Unsupported("attribute store on %r" % (base,), node, self.site(node))
 
     # ------------------------------------------------------------------ writes
+    def rebind_storage(self, tv, newterm, node, detail, shape=None, alias=None):
+        """`tv.data = <tensor>`: the python object keeps its identity, flags, .grad and version counter but from now on
+        uses other storage.  Views created before keep the previous storage (they go stale)."""
+        from .values import TObj
+
+        old = tv.obj
+        new = TObj(old.kind, newterm, shape if shape is not None else old.shape, old.origin, old.site)
+        new.is_parameter, new.valkind, new.grad, new.version, new.dtype_src = old.is_parameter, old.valkind, old.grad, old.version, old.dtype_src
+        for k in ("requires_grad", "device", "dtype"):
+            if hasattr(old, k):
+                setattr(new, k, getattr(old, k))
+        if alias is not None and alias is not old:
+            new.may_alias.add(alias)
+        new.rebound_from = old
+        self.effect("write", old, node, detail)
+        tv.obj = new
+        self.effect("write", new, node, detail)
+
     def write(self, tv, newterm, node, detail, meta=False, newshape=None):
         """In-place write of `newterm` through the view `tv`."""
         obj = tv.obj
